@@ -98,6 +98,12 @@ def viewStep (acc : St → St → Bool) (v : View) (n : Note) : View :=
 
 def viewRun (acc : St → St → Bool) (v : View) (ns : List Note) : View := ns.foldl (viewStep acc) v
 
+/-- the executor's verdict on a process that ended by itself, for every return code `subprocess` can report - negative
+    ones for processes ended by a signal.  With `zeroTest` (read from `_check_running`: DONE in the branch `exit_code == 0`)
+    only 0 is DONE; the alternative shown for contrast fails positive codes only -/
+def targetOfCode (zeroTest : Bool) (code : Int) : St :=
+  if zeroTest then (if code = 0 then .done else .failed) else (if code > 0 then .failed else .done)
+
 def final (p : Plan) : St := (run p).emits.getLast!
 
 /-! ### `work_cb`: what happens when a work routine itself raises
